@@ -1,5 +1,6 @@
 """C08 - reductions equal NumPy's along the named axis and drop only that axis."""
 import copy, itertools, math, warnings
+from fractions import Fraction
 import numpy as np
 import core, gen
 from core import da, Axis, DimArray
@@ -127,6 +128,17 @@ class C08(Prop):
     # ------------------------------------------------------------ generation
     def gen(self, rng, tier):
         n = 1000 if tier == "quick" else 30000
+        # stratum: every function over a tuple of dimensions with unevenly spread NaNs, both skipna settings
+        # (reducing "all at once" differs from one dimension after the other exactly there)
+        for k in range(12 * len(FNS) if tier == "quick" else 150 * len(FNS)):
+            rank = rng.choice([2, 3, 3])
+            arr = gen.rand_array(rng, rank=rank, maxn=4, minn=2)
+            arr["vkind"] = "f"
+            shape = [len(a["labels"]) for a in arr["axes"]]
+            arr["nan_at"] = nan_pattern(rng, shape, "some")
+            names = [a["name"] for a in arr["axes"]]
+            yield {"op": "reduce", "array": arr, "fn": FNS[k % len(FNS)],
+                   "axis": ["many", [["name", d] for d in rng.sample(names, rng.randint(2, rank))]], "skipna": rng.random() < 0.7}
         for _ in range(n):
             rank = rng.choice([1, 2, 2, 3, 3, 4])
             arr = gen.rand_array(rng, rank=rank, maxn=4, minn=1)
@@ -229,6 +241,12 @@ class C08(Prop):
                     for x in got["axes"]:
                         if x["name"] in in_axes and x["labels"] != in_axes[x["name"]]:
                             prop_bad.append("axes.labels")
+                    if not np.isscalar(c["pct"]) and got["dims"] == wd:
+                        # NumPy returns the percentiles in the order requested: slice k is labelled pct[k]
+                        want_l = [float(q) for q in c["pct"]]
+                        got_l = [float(Fraction(l[1], l[2])) if l[0] == "n" else None for l in got["axes"][0]["labels"]]
+                        if got_l != want_l:
+                            prop_bad.append("axes.labels:percentile")
             elif "ok" in lean:
                 prop_bad.append("outcome:" + io["err"])
             if not prop_bad:
